@@ -677,8 +677,13 @@ func (e *AnimEncoder) addOptimizedFrame(img image.Image, duration time.Duration)
 	currCanvas := toNRGBA(img)
 
 	// Ensure canvas dimensions match. If the image is smaller than the canvas,
-	// place it at (0,0) on a full-canvas NRGBA.
-	if currCanvas.Bounds().Dx() != e.width || currCanvas.Bounds().Dy() != e.height {
+	// place it at (0,0) on a full-canvas NRGBA. The same copy normalises an
+	// *image.NRGBA that is a sub-image (non-zero origin or padded stride): the
+	// canvas comparisons below (bytes.Equal on Pix, one stride for both images)
+	// assume a compact pixel buffer starting at (0,0).
+	if currCanvas.Bounds().Dx() != e.width || currCanvas.Bounds().Dy() != e.height ||
+		currCanvas.Rect.Min != (image.Point{}) || currCanvas.Stride != 4*e.width ||
+		len(currCanvas.Pix) != 4*e.width*e.height {
 		full := image.NewNRGBA(image.Rect(0, 0, e.width, e.height))
 		copyImageRect(full, currCanvas, 0, 0)
 		currCanvas = full
